@@ -1034,7 +1034,7 @@ theorem instrumented_dict_refines_dict (d : Dict) (hw : DWf d) (op : DOp) (d' : 
     rw [this]
     unfold Accounts
     rw [apps_map_rem, rems_map_rem]; simp [dVals]
-  | pop k hd =>
+  | pop k hd df =>
     simp only [dPlain] at h
     cases hg : dGet d k with
     | none =>
@@ -1047,7 +1047,7 @@ theorem instrumented_dict_refines_dict (d : Dict) (hw : DWf d) (op : DOp) (d' : 
         simp only [if_true, Option.some.injEq] at h
         subst h
         simp only [dStep, DictI.pop, hg, if_true]
-        exact ⟨rfl, by intro x; simp, acc_refl _, hw⟩
+        exact ⟨rfl, by intro x; cases df <;> simp, acc_refl _, hw⟩
     | some old =>
       have hh : dHas d k = true := by rw [dHas_eq_isSome, hg]; rfl
       rw [hh] at h
@@ -1131,7 +1131,7 @@ theorem instrumented_dict_raises_like_dict (d : Dict) (op : DOp) (h : dPlain d o
       have hh : dHas d k = true := by rw [dHas_eq_isSome, hg]; rfl
       rw [hh] at h; simp at h
   | clear => simp [dPlain] at h
-  | pop k hd =>
+  | pop k hd df =>
     simp only [dPlain] at h
     cases hg : dGet d k with
     | none =>
@@ -1204,6 +1204,20 @@ theorem instrumented_dict_history_refines_dict (ops : List DOp) : ∀ (d : Dict)
       simp only [dFinal, List.foldl_cons, dPlainRun, dAllEvents, hp, Option.getD_some, ok.items] at a b c ⊢
       refine ⟨a, b, ?_⟩
       exact acc_trans ok.acc c
+
+/-- sensitivity (seeded C38-D): inferring "nothing removed" from `item is default` loses the
+    remove event of `d.pop(k, d[k])` — the item leaves, no event accounts for it -/
+theorem dict_pop_infers_from_default_counterexample :
+    ∃ (d : Dict) (k : Key) (x : Item), DWf d ∧ dGet d k = some x ∧
+      ¬ Accounts (dVals d) (DictI.popInfersFromDefault d k x).events
+          (dVals (DictI.popInfersFromDefault d k x).items) ∧
+      Accounts (dVals d) (DictI.pop d k true (some x)).events (dVals (DictI.pop d k true (some x)).items) := by
+  refine ⟨[(1, 5)], 1, 5, by simp [DWf, dKeys], rfl, ?_, ?_⟩
+  · intro h
+    have := h.length_eq
+    revert this
+    decide
+  · exact (instrumented_dict_refines_dict [(1, 5)] (by simp [DWf, dKeys]) (.pop 1 true (some 5)) [] rfl).acc
 
 /-- sensitivity: the unwrapped `dict.__ior__` of the code before the G8 fix changes the
     contents without any event -/
